@@ -44,12 +44,16 @@ def discharge(ob):
     # pass 0: a goal that asks for a WITNESS (positive existential) is not what trigger-based
     # instantiation is good at; model-based instantiation first, with the full budget
     if _wants_witness(ob.goal):
-        s = _solver(ob.hyps, ob.goal, False, Z3_MS // 4)
-        r = s.check()
-        if r == z3.unsat:
-            rec.update(status="discharged", backend="z3(e-matching)")
-            rec["ms"] = round((time.time() - t0) * 1000, 1)
-            return rec
+        for rel_, ms_ in ((None, Z3_MS // 4), (0, Z3_MS // 4)):
+            t1 = time.time()
+            s = _solver(ob.hyps, ob.goal, False, ms_, relevancy=rel_)
+            r = s.check()
+            if r == z3.unsat:
+                rec.update(status="discharged", backend="z3(e-matching)" if rel_ is None else "z3(e-matching,relevancy=0)")
+                rec["ms"] = round((time.time() - t0) * 1000, 1)
+                return rec
+            if time.time() - t1 > 1.0:
+                break  # not a quick saturation: the relevancy filter is not the problem
         s = _solver(ob.hyps, ob.goal, True, Z3_MS)
         r = s.check()
         if r == z3.unsat:
